@@ -186,8 +186,125 @@ Fixpoint seq_run (m : docs) (ms : list cmsg) : list out :=
   | CIgnored :: r => seq_run m r
   end.
 
+(* the document map after handling [ms] sequentially (the same recursion as [seq_run]) *)
+Fixpoint seq_docs (m : docs) (ms : list cmsg) : docs :=
+  match ms with
+  | [] => m
+  | COpen u p :: r => seq_docs (insert m u (open_doc p)) r
+  | CChange u p :: r =>
+      match lookup m u with
+      | Some d0 => seq_docs (insert m u (change_doc d0 p)) r
+      | None => seq_docs m r
+      end
+  | CClose u :: r => seq_docs (remove m u) r
+  | CReq _ _ :: r => seq_docs m r
+  | CLocal _ _ :: r => seq_docs m r
+  | CIgnored :: r => seq_docs m r
+  end.
+
 Definition is_resp (o : out) : bool := match o with OResp _ _ => true | ODiag _ _ => false end.
 Definition responses (l : list out) : list out := filter is_resp l.
 Definition diagnostics (l : list out) : list out := filter (fun o => negb (is_resp o)) l.
 
+(* the publishDiagnostics frames for document [u] *)
+Definition diag_of (u : uri) (o : out) : bool :=
+  match o with ODiag v _ => uri_eqb v u | OResp _ _ => false end.
+Definition diags_of (u : uri) (l : list out) : list out := filter (diag_of u) l.
+
+(* [c] is a notification addressed to document [u] *)
+Definition about (u : uri) (c : cmsg) : bool :=
+  match c with
+  | COpen v _ => uri_eqb v u
+  | CChange v _ => uri_eqb v u
+  | CClose v => uri_eqb v u
+  | _ => false
+  end.
+
+(* ids of the requests of a session / of the responses in an output, in order *)
+Definition req_id (c : cmsg) : list N :=
+  match c with CReq id _ => [id] | CLocal id _ => [id] | _ => [] end.
+Definition out_id (o : out) : list N :=
+  match o with OResp id _ => [id] | ODiag _ _ => [] end.
+
+(* number of steps of a schedule that actually fire *)
+Fixpoint fired (sched : list proc) (s : state) : nat :=
+  match sched with
+  | [] => O
+  | p :: r => match step p s with Some s' => S (fired r s') | None => fired r s end
+  end.
+
 End Broker.
+
+(* ------------------------------------------------------------------------------------------ *)
+(* All parameters of the model bundled into one value, so that statements quantified over every
+   instantiation (Props/C20.v) can be written outside a section. *)
+Record world : Type := World {
+  w_uri : Type;
+  w_uri_eqb : w_uri -> w_uri -> bool;
+  w_dstate : Type;
+  w_payload : Type;
+  w_req : Type;
+  w_ans : Type;
+  w_open_doc : w_payload -> w_dstate;
+  w_change_doc : w_dstate -> w_payload -> w_dstate;
+  w_req_uri : w_req -> w_uri;
+  w_answer : w_req -> option w_dstate -> w_ans;
+  w_local_answer : N -> w_ans;
+  w_diag : w_uri -> w_dstate -> w_ans;
+  w_send_diagnostics : bool;
+  w_cap : nat
+}.
+
+Definition w_msg (w : world) : Type := cmsg (w_uri w) (w_payload w) (w_req w).
+Definition w_out (w : world) : Type := out (w_uri w) (w_ans w).
+Definition w_state (w : world) : Type := state (w_uri w) (w_dstate w) (w_payload w) (w_req w) (w_ans w).
+Definition w_docs (w : world) : Type := docs (w_uri w) (w_dstate w).
+
+(* [uri_eqb] decides equality of URIs *)
+Definition w_uri_ok (w : world) : Prop := forall a b, w_uri_eqb w a b = true <-> a = b.
+
+Definition w_step (w : world) : proc -> w_state w -> option (w_state w) :=
+  step (w_uri w) (w_uri_eqb w) (w_dstate w) (w_payload w) (w_req w) (w_ans w) (w_open_doc w) (w_change_doc w)
+       (w_req_uri w) (w_answer w) (w_local_answer w) (w_diag w) (w_send_diagnostics w) (w_cap w).
+
+(* the state reached from the initial state on the session [ms] under the schedule [sched] *)
+Definition w_run (w : world) (sched : list proc) (ms : list (w_msg w)) : w_state w :=
+  exec (w_uri w) (w_uri_eqb w) (w_dstate w) (w_payload w) (w_req w) (w_ans w) (w_open_doc w) (w_change_doc w)
+       (w_req_uri w) (w_answer w) (w_local_answer w) (w_diag w) (w_send_diagnostics w) (w_cap w) sched
+       (init (w_uri w) (w_dstate w) (w_payload w) (w_req w) (w_ans w) ms).
+
+Definition w_fired (w : world) (sched : list proc) (ms : list (w_msg w)) : nat :=
+  fired (w_uri w) (w_uri_eqb w) (w_dstate w) (w_payload w) (w_req w) (w_ans w) (w_open_doc w) (w_change_doc w)
+        (w_req_uri w) (w_answer w) (w_local_answer w) (w_diag w) (w_send_diagnostics w) (w_cap w) sched
+        (init (w_uri w) (w_dstate w) (w_payload w) (w_req w) (w_ans w) ms).
+
+(* the sequential specification started from the document map [m] *)
+Definition w_spec_from (w : world) (m : w_docs w) (ms : list (w_msg w)) : list (w_out w) :=
+  seq_run (w_uri w) (w_uri_eqb w) (w_dstate w) (w_payload w) (w_req w) (w_ans w) (w_open_doc w) (w_change_doc w)
+          (w_req_uri w) (w_answer w) (w_local_answer w) (w_diag w) (w_send_diagnostics w) m ms.
+Definition w_spec (w : world) (ms : list (w_msg w)) : list (w_out w) := w_spec_from w [] ms.
+
+(* the document map of the sequential specification after [ms], started from [m] *)
+Definition w_docs_from (w : world) (m : w_docs w) (ms : list (w_msg w)) : w_docs w :=
+  seq_docs (w_uri w) (w_uri_eqb w) (w_dstate w) (w_payload w) (w_req w) (w_open_doc w) (w_change_doc w) m ms.
+Definition w_docs_after (w : world) (ms : list (w_msg w)) : w_docs w := w_docs_from w [] ms.
+
+Definition w_lookup (w : world) (m : w_docs w) (u : w_uri w) : option (w_dstate w) :=
+  lookup (w_uri w) (w_uri_eqb w) (w_dstate w) m u.
+
+Definition w_quiescent (w : world) (s : w_state w) : Prop :=
+  quiescent (w_uri w) (w_dstate w) (w_payload w) (w_req w) (w_ans w) s.
+Definition w_written (w : world) (s : w_state w) : list (w_out w) :=
+  written (w_uri w) (w_dstate w) (w_payload w) (w_req w) (w_ans w) s.
+Definition w_store (w : world) (s : w_state w) : w_docs w :=
+  store (w_uri w) (w_dstate w) (w_payload w) (w_req w) (w_ans w) s.
+Definition w_responses (w : world) (l : list (w_out w)) : list (w_out w) := responses (w_uri w) (w_ans w) l.
+Definition w_diagnostics (w : world) (l : list (w_out w)) : list (w_out w) := diagnostics (w_uri w) (w_ans w) l.
+Definition w_diags_of (w : world) (u : w_uri w) (l : list (w_out w)) : list (w_out w) :=
+  diags_of (w_uri w) (w_uri_eqb w) (w_ans w) u l.
+Definition w_about (w : world) (u : w_uri w) (c : w_msg w) : bool :=
+  about (w_uri w) (w_uri_eqb w) (w_payload w) (w_req w) u c.
+Definition w_req_ids (w : world) (ms : list (w_msg w)) : list N :=
+  flat_map (req_id (w_uri w) (w_payload w) (w_req w)) ms.
+Definition w_out_ids (w : world) (l : list (w_out w)) : list N :=
+  flat_map (out_id (w_uri w) (w_ans w)) l.
